@@ -477,3 +477,103 @@ func VHLongInputs() {
 		vCover("long inputs n >= 17")
 	}
 }
+
+// VHDistinctLarge: Distinct, DistinctFunc, Except, ExceptSet, Index and Contains on inputs
+// longer than the forking harness reaches: concrete key patterns (every key reappears after
+// all were seen; blocks; all distinct then the last few again) over up to NL elements, so
+// that size- or count-dependent strategies inside the helpers are crossed.
+func VHDistinctLarge() {
+	n := 1 + vChoose("n", vParam("NL"))
+	d := 1 + vChoose("distinct", n)
+	pat := vChoose("pattern", 3)
+	base := vInt("base") // symbolic offset: the values themselves stay arbitrary
+	vAssume(vAnd(base >= -1000000, base <= 1000000))
+	s := make([]int, n)
+	block := (n + d - 1) / d
+	for i := range s {
+		k := i % d
+		switch pat {
+		case 1:
+			k = i / block
+		case 2: // 0..d-1 once, then d-1, d-2, ... again
+			if i >= d {
+				k = (d - 1 - (i-d)%d)
+			}
+		}
+		s[i] = k
+	}
+	snap := append([]int(nil), s...)
+	var exp []int
+	for _, v := range snap {
+		dup := false
+		for _, x := range exp {
+			if x == v {
+				dup = true
+			}
+		}
+		if !dup {
+			exp = append(exp, v)
+		}
+	}
+	// shift every value by the symbolic base
+	for i := range s {
+		s[i] += base
+		snap[i] += base
+	}
+	for i := range exp {
+		exp[i] += base
+	}
+	dd := Distinct(s)
+	vAssert(len(dd) == len(exp), "Distinct (long input): one occurrence per value")
+	for i := range exp {
+		if i < len(dd) {
+			vAssert(dd[i] == exp[i], "Distinct (long input): first occurrences in original order")
+		}
+	}
+	df := DistinctFunc(s, func(a, b int) bool { return a == b })
+	vAssert(len(df) == len(exp), "DistinctFunc (long input): one occurrence per value")
+	for i := range exp {
+		if i < len(df) {
+			vAssert(df[i] == exp[i], "DistinctFunc (long input): first occurrences in original order")
+		}
+	}
+	// exclude every third key
+	var excl, expE []int
+	for k := 0; k < d; k += 3 {
+		excl = append(excl, k+base)
+	}
+	for _, v := range snap {
+		if (v-base)%3 != 0 {
+			expE = append(expE, v)
+		}
+	}
+	r := Except(s, excl)
+	r2 := ExceptSet(s, maps.NewSetFromSlice(excl))
+	vAssert(len(r) == len(expE), "Except (long input): exactly the elements not excluded")
+	vAssert(len(r2) == len(expE), "ExceptSet (long input): exactly the elements not excluded")
+	for i := range expE {
+		if i < len(r) {
+			vAssert(r[i] == expE[i], "Except (long input): order kept")
+		}
+		if i < len(r2) {
+			vAssert(r2[i] == expE[i], "ExceptSet (long input): order kept")
+		}
+	}
+	for k := 0; k <= d; k++ {
+		first := -1
+		for i, v := range snap {
+			if v == k+base {
+				first = i
+				break
+			}
+		}
+		vAssert(Index(s, k+base) == first, "Index (long input): first position or -1")
+		vAssert(Contains(s, k+base) == (first >= 0), "Contains (long input)")
+	}
+	for i := range s {
+		vAssert(s[i] == snap[i], "Distinct*/Except* (long input) do not modify the input")
+	}
+	if len(exp) >= 17 && n > len(exp) {
+		vCover("distinct long: > 16 distinct values with repeats")
+	}
+}
